@@ -1521,3 +1521,41 @@ V(id='c34-tol-bits-natural-log', prop='C34', file='mpmath/calculus/odes.py',
 V(id='c34-benign-tol-bits-ln-over-ln2', prop='C34', file='mpmath/calculus/odes.py',
   old="        tol_prec = int(-ctx.log(tol, 2))+10", new="        tol_prec = int(-ctx.log(tol)/ctx.log(2))+10",
   expect='silent')
+
+# ---- rules derived from the C16 / C02 hunts (fixes 6618628, 3276b00, c2ba1f7) ----
+V(id='c16-contains-complex-unexamined', prop='C16', file='mpmath/ctx_iv.py',
+  old="            if im != mpi_zero:\n                return False\n", new="",
+  expect='fire:F-R5:__contains__')
+V(id='c16-contains-complex-inverted', prop='C16', file='mpmath/ctx_iv.py',
+  old="            if im != mpi_zero:\n                return False\n",
+  new="            if im == mpi_zero:\n                return False\n",
+  expect='fire:F-R5:__contains__')
+V(id='c16-contains-complex-benign', prop='C16', file='mpmath/ctx_iv.py',
+  old="            if im != mpi_zero:\n                return False\n",
+  new="            if not (im == mpi_zero):\n                return False\n",
+  expect='silent')
+V(id='c16-fallback-exception-class', prop='C16', file='mpmath/rational.py',
+  old="            return op(a*d, b*c)\n        return NotImplemented", new="            return op(a*d, b*c)\n        return NotImplementedError",
+  expect='fire:F-R6:_cmp')
+V(id='c16-fallback-exception-class-iv', prop='C16', file='mpmath/ctx_iv.py',
+  old="            return NotImplemented\n        return cmpfun(s._mpi_, t._mpi_)",
+  new="            return TypeError\n        return cmpfun(s._mpi_, t._mpi_)",
+  expect='fire:F-R6:_compare')
+V(id='c02-rational-rhs-truncated', prop='C02', file='mpmath/ctx_mp_python.py',
+  old="            return from_rational(p, q, *cls.context._prec_rounding)",
+  new="            return from_rational(p, q, cls.context.prec)",
+  expect='fire:B-R3c:mpf_convert_rhs')
+V(id='c02-rational-convert-truncated', prop='C02', file='mpmath/ctx_mp_python.py',
+  old="            return ctx.make_mpf(from_rational(p, q, prec, rounding))",
+  new="            return ctx.make_mpf(from_rational(p, q, prec))",
+  expect='fire:B-R3c:convert')
+V(id='c02-str-convert-truncated', prop='C02', file='mpmath/ctx_mp_python.py',
+  old="                _mpf_ = from_str(x, prec, rounding)", new="                _mpf_ = from_str(x, prec)",
+  expect='fire:B-R3c:convert')
+V(id='c02-mpf-no-rational-branch', prop='C02', file='mpmath/ctx_mp_python.py',
+  old="        if isinstance(x, numbers.Rational): # e.g. Fraction\n            return from_rational(int(x.numerator), int(x.denominator), prec, rounding)\n",
+  new="", expect='fire:B-R3c:mpf_convert_arg')
+V(id='c02-rational-rounding-keyword-benign', prop='C02', file='mpmath/ctx_mp_python.py',
+  old="            return ctx.make_mpf(from_rational(p, q, prec, rounding))",
+  new="            return ctx.make_mpf(from_rational(p, q, prec, rnd=rounding))",
+  expect='silent')
